@@ -198,6 +198,16 @@ class _StdApi:
         With no argument, disassemble the last traceback.
 
         """
+        if hasattr(x, "__dict__") and not hasattr(x, "__code__"):
+            # A class or a module: like dis.dis(), disassemble every
+            # function, method or code object found in its namespace.
+            for name, x1 in sorted(x.__dict__.items()):
+                if hasattr(x1, "__func__"):
+                    x1 = x1.__func__
+                if hasattr(x1, "__code__") or hasattr(x1, "co_code"):
+                    self._print("Disassembly of %s:" % name, file)
+                    self._print(self.Bytecode(x1).dis(), file)
+            return
         self._print(self.Bytecode(x).dis(), file)
 
     def distb(self, tb=None, file=None):
